@@ -175,22 +175,6 @@ theorem entriesFrom_append (o : Nat) (a b : List Rec) :
     simp only [List.cons_append, entriesFrom, ih, List.map_cons, List.flatten_cons, List.length_append,
       Nat.add_assoc]
 
-theorem recOK_of_mem (recs : List Rec) (hwf : recsWf recs = true) (r : Rec) (hr : r ∈ recs) :
-    ∃ last, RecOK r last := by
-  induction recs with
-  | nil => simp at hr
-  | cons x xs ih =>
-    cases xs with
-    | nil =>
-      simp only [List.mem_singleton] at hr
-      simp only [recsWf] at hwf
-      rw [hr]; exact ⟨true, recOK_of_wf hwf⟩
-    | cons y ys =>
-      simp only [recsWf, Bool.and_eq_true] at hwf
-      rcases List.mem_cons.mp hr with rfl | hr
-      · exact ⟨false, recOK_of_wf hwf.1⟩
-      · exact ih hwf.2 hr
-
 theorem names_ne_of_distinct (pre : List Rec) (r : Rec) (post : List Rec)
     (h : namesDistinct (pre ++ r :: post) = true) : ∀ x ∈ pre, x.name ≠ r.name := by
   induction pre with
